@@ -32,7 +32,11 @@ class Den:
         # iterative post-order (no recursion limit issues)
         stack = [a]
         succ = self.bdd.succ
+        limit = 4 * len(self.bdd) + 64
         while stack:
+            if len(stack) > limit:
+                from .viol import Violation
+                raise Violation('denote.cycle_in_diagram', dict(node=a))
             x = stack[-1]
             if x in memo:
                 stack.pop()
